@@ -51,3 +51,11 @@ claim("C19", "Totality and decision-table postconditions over a tagged 'any buil
       TB + "str()/lower()/regex behind assumed contracts; optional-library classifiers only with the library absent.", "DESIGN.md C19")
 claim("C20", "Totality and value postconditions of the Retry-After parser chain with assumed-and-witnessed stdlib contracts; honouring proved on retry_after_or.",
       TB + "Header containers raise only Exception subclasses; hint + jitter within float range.", "DESIGN.md C20")
+POL = ("Policy/AsyncPolicy.call/execute (with and without retry, with and without breaker) are executed symbolically for every way the admitted "
+       "call can end: Retry.call/execute through their proved delivery contracts (value, AbortRetryError, RetryExhaustedError, any other "
+       "exception class incl. every BaseException), the operation/hooks/classifier raising any class at each invocation, observability hooks "
+       "raising non-Exceptions; the breaker through the (state, probe) abstraction of its proved triples. ")
+claim("C08", POL + "Exit obligation on every path: admitted => the breaker was told and no probe slot taken by this call is left set.",
+      TB + "Async cancellation modelled as the awaited operation raising CancelledError at its await point (the only suspension points).", "DESIGN.md C08")
+claim("C09", POL + "Ghost record log: exactly one record per admitted call, kind/class determined by the final outcome; none for unadmitted calls "
+      "(finding F7 for the pre-flight abort path).", TB, "DESIGN.md C09")
